@@ -61,6 +61,8 @@ pub fn add_trusted_path(path: PathBuf) -> Result<()> {
         .open(&path)?;
     let stat = file.metadata()?;
     let dev = stat.dev();
+    #[cfg(woodpile_verif)]
+    let dev = crate::verif_seams::dev(&file, dev);
     // Check that we can actually use this path for base time updates.
     //
     // This call may fail for I/O, but should not fail
@@ -107,6 +109,8 @@ pub fn should_refresh_base_time(leeway_ms: Option<u64>, now: Option<time::Offset
     LAST_UPDATE.set(Some(std::time::Instant::now()));
 
     let leeway_ms = leeway_ms.unwrap_or(DEFAULT_LEEWAY_MS);
+    #[cfg(woodpile_verif)]
+    let now = now.or_else(crate::verif_seams::now_utc_opt);
     let now = now.unwrap_or_else(time::OffsetDateTime::now_utc);
     let wanted: u64 = (now.unix_timestamp_nanos() / 1_000_000).clamp(0, u64::MAX as i128) as u64;
     let (base_ms, _voucher) = get_base_time_unlocked(now).expect("_unlocked does not fail");
@@ -245,12 +249,16 @@ fn update_base_time(
 
     if options.touch {
         file.set_times(std::fs::FileTimes::new().set_accessed(std::time::SystemTime::now()))?;
+        #[cfg(woodpile_verif)]
+        crate::verif_seams::touched(file);
     }
 
     let begin = std::time::Instant::now();
 
     let stat = file.metadata()?;
     let dev = stat.dev();
+    #[cfg(woodpile_verif)]
+    let dev = crate::verif_seams::dev(file, dev);
     if !TRUSTED_PATHS.read().unwrap().contains_key(&dev) && options.extra_device != Some(dev) {
         return Ok((stat, None));
     }
@@ -261,6 +269,8 @@ fn update_base_time(
     let millis_since_epoch = (stat.ctime() as u64)
         .saturating_mul(1000)
         .saturating_add((stat.ctime_nsec() as u64) / 1_000_000);
+    #[cfg(woodpile_verif)]
+    let millis_since_epoch = crate::verif_seams::ctime_ms(file, millis_since_epoch);
     let update = (millis_since_epoch, VOUCH_PARAMS.vouch(millis_since_epoch));
 
     let updated = if options.blocking {
